@@ -4,6 +4,7 @@ package corebgp
 
 import (
 	"errors"
+	"net/netip"
 	"time"
 )
 
@@ -118,4 +119,12 @@ func VerifMessageFromBytes(b []byte, t uint8) (*VerifMessage, error) {
 		return nil, err
 	}
 	return verifMessageOf(m), nil
+}
+
+func VerifDecodePrefixes(b []byte, ipv6 bool) ([]netip.Prefix, error) {
+	return decodePrefixes(b, ipv6)
+}
+
+func VerifDecodeAddPathPrefixes(b []byte, ipv6 bool) ([]AddPathPrefix, error) {
+	return decodeAddPathPrefixes(b, ipv6)
 }
